@@ -94,6 +94,7 @@ func txnInitTables(init Action) map[string]jtable {
 }
 
 func txnSetup(dir string, init Action) []string {
+	_ = os.MkdirAll(filepath.Join(dir, "sub"), 0755)
 	for f, t := range txnInitTables(init) {
 		if !t.Absent {
 			writeFile(filepath.Join(dir, f+".csv"), tableBytes(f, t))
@@ -101,7 +102,7 @@ func txnSetup(dir string, init Action) []string {
 	}
 	// nobody else holds these files (the environment process commits and leaves): a lock that is still there
 	// was left behind by an earlier statement - do not wait 10 s for it
-	return append([]string{"SET @@WAIT_TIMEOUT TO 0.5;"}, txnPreamble...)
+	return append([]string{"SET @@WAIT_TIMEOUT TO 0.1;"}, txnPreamble...)
 }
 
 // declarations every Txn program starts with: the temporary table, a variable to receive function results, a function
@@ -266,8 +267,37 @@ func showFile(path string, zeroIsAbsent bool) []string {
 	return l
 }
 
+// pathSpelling: table t of the repository dir under spelling x
+func pathSpelling(dir, t string, x int) string {
+	switch x {
+	case 1:
+		return "`./" + t + ".csv`"
+	case 2:
+		return "`" + filepath.Join(dir, t+".csv") + "`"
+	case 3:
+		return "`" + dir + "/./" + t + ".csv`"
+	}
+	return "`" + dir + "/sub/../" + t + ".csv`"
+}
+
 func txnExec(p *sut.Proc, a Action) Out {
 	switch actName(a) {
+	case "selectpath":
+		r := p.Exec("SELECT * FROM " + pathSpelling(p.Dir, aStr(a, "t"), aInt(a, "x")) + ";")
+		if r.Err != "" {
+			return Out{K: "err", E: errClass(r), Vals: []string{}}
+		}
+		return Out{K: "val", Vals: showTable(r.Out)}
+	case "insertpath":
+		r := p.Exec(fmt.Sprintf("INSERT INTO %s VALUES (%d, 1);", pathSpelling(p.Dir, aStr(a, "t"), aInt(a, "x")), aInt(a, "k")))
+		if r.Err != "" {
+			return Out{K: "err", E: errClass(r), Vals: []string{}}
+		}
+		n, ok := countOf(r.Out + r.Log)
+		if !ok {
+			return Out{K: "val", Vals: []string{"no-count-reported:" + strings.TrimSpace(r.Out)}}
+		}
+		return Out{K: "val", Vals: []string{n}}
 	case "selectagg":
 		r := p.Exec(txnSQL(a))
 		if r.Err != "" {
@@ -488,7 +518,7 @@ func txnRandom(r *core.Run, hk int, flavour string) (Action, []Action) {
 				acts = append(acts, txnA("select", t, 0, 0))
 			case "env":
 				f := []string{"f1", "f2"}[rng.Intn(2)]
-				acts = append(acts, txnA("env", f, 0, 0), txnA([]string{"select", "select", "selectfn", "selectsub"}[rng.Intn(4)], f, 0, 0))
+				acts = append(acts, txnA("env", f, 0, 0), txnA([]string{"select", "select", "selectfn", "selectsub", "selectpath"}[rng.Intn(5)], f, 0, 1+rng.Intn(4)))
 			default:
 				acts = append(acts, txnA("select", t, 0, 0))
 			}
